@@ -37,6 +37,7 @@ import Hfsm.Proofs.SerialMach
 import Hfsm.Proofs.SerialBounds
 import Hfsm.Proofs.SerialStream
 import Hfsm.Proofs.LoadCallsExact
+import Hfsm.Proofs.Reach
 
 namespace Hfsm.Props.C08
 open Hfsm Hfsm.Model.Bits Hfsm.Model.Stream Hfsm.Props.C18
@@ -575,5 +576,117 @@ bounds / buffer        : save_length_le, info_of_created, info_structure_only, s
                          load_reads_exactly_the_image, save_bits_in_buffer
 witness (pre-repair)   : F1_without_restore_differs
 -/
+
+end Hfsm.Props.C08
+
+/-! ## end-to-end (composition with C01)
+
+The instance theorems above assume `Mach.ActiveOK` (= `Act ∧ NoMarks ∧ ResumableOK ∧ WidthOK ∧ activated`) of
+the source, `Act` or `Mach.InactiveOK` (= manual ∧ `Clean` ∧ `NoMarks` ∧ not activated) of the destination and
+`sameShape`.  For REACHABLE instances (`ReachableOf shape cfg m`, Proofs/Reach.lean: `Mach.create shape cfg`
+followed by any history of API calls) without contract violation, C01's invariant gives `Act` / `Clean`,
+`ResumableOK` and `sameShape`; what is left:
+  * `NoMarks` — holds on `QuietOf` histories only (every `load / replayTransitions / replayEnter` followed by an
+    `enter / exit / reset`, or a `replayEnter` that answered `true`).  It is FALSE after a `replayEnter` that
+    answered `false` (`Props.C01.stale_marks_witness`) and NOT PROVED after `load` itself or `replayTransitions`
+    (GAP 2 of Proofs/Reach.lean).  So the SOURCE of a round trip, and a destination that is NOT activated, must be
+    quiet; an ACTIVATED destination may be any reachable instance (`load` clears its marks first).
+    In particular "save the instance that was just loaded" is covered by `resave_identical` (its root IS the
+    source's root) but `ActiveOK` of a loaded instance as such is not derivable from C01.
+  * `WidthOK` — a property of the declaration (every composite region has ≤ 256 sub-states): hypothesis
+    `(shape.toNode 0 0).WidthOK`. -/
+namespace Hfsm.Props.C08
+open Hfsm
+variable {U : Type} [UtilArith U] {shape : Shape} {cfg cs cd : Config} {m src dst : Mach U}
+
+/-- an activated quiet reachable instance satisfies the source hypothesis of every theorem above -/
+theorem activeOK_reachable (hq : QuietOf shape cfg m) (he : m.w.err = none) (hm : m.root.machineActive = true)
+    (hw : (shape.toNode 0 0).WidthOK) : m.ActiveOK :=
+  ⟨hq.reachable.act he hm, hq.noMarks he, hq.reachable.resumableOK he, (hq.reachable.widthOK_iff he).mpr hw, hm⟩
+
+/-- a quiet reachable instance under manual activation that is not activated -/
+theorem inactiveOK_reachable (hq : QuietOf shape cfg m) (he : m.w.err = none) (hman : cfg.manual = true)
+    (hm : m.root.machineActive = false) : m.InactiveOK :=
+  ⟨by rw [hq.reachable.cfg_manual]; exact hman, hq.reachable.clean he hm, hq.noMarks he, hm⟩
+
+/-- two reachable instances of the same declaration have the same structure, whatever their configurations
+and histories -/
+theorem sameShape_reachable (hs : ReachableOf shape cs src) (hd : ReachableOf shape cd dst)
+    (hes : src.w.err = none) (hed : dst.w.err = none) : dst.root.sameShape src.root :=
+  (hd.sameShape' hed).trans (hs.sameShape' hes).symm
+
+/-- **Round trip, activated → activated.**  `src` quiet, `dst` ANY reachable instance of the same machine that
+is activated: after `dst.load src.save` the registry of `dst` IS the registry of `src`, and saving it again is
+bit-identical. -/
+theorem load_roundtrip_active_reachable (hs : QuietOf shape cs src) (hd : ReachableOf shape cd dst)
+    (hes : src.w.err = none) (hed : dst.w.err = none)
+    (hsm : src.root.machineActive = true) (hdm : dst.root.machineActive = true)
+    (hw : (shape.toNode 0 0).WidthOK) :
+    (dst.load src.save).root = src.root ∧ (dst.load src.save).save = src.save :=
+  have hso := activeOK_reachable hs hes hsm hw
+  have hsh := sameShape_reachable hs.reachable hd hes hed
+  ⟨load_active_into_active src dst hso hsh (hd.act hed hdm) hdm,
+   resave_identical src dst hso hsh (.inl ⟨hd.act hed hdm, hdm⟩)⟩
+
+/-- **Round trip, activated → not activated** (manual activation, `loadEnter`): both quiet. -/
+theorem load_roundtrip_inactive_reachable (hs : QuietOf shape cs src) (hd : QuietOf shape cd dst)
+    (hes : src.w.err = none) (hed : dst.w.err = none)
+    (hsm : src.root.machineActive = true) (hdm : dst.root.machineActive = false) (hman : cd.manual = true)
+    (hw : (shape.toNode 0 0).WidthOK) :
+    (dst.load src.save).root = src.root ∧ (dst.load src.save).save = src.save :=
+  have hso := activeOK_reachable hs hes hsm hw
+  have hdo := inactiveOK_reachable hd hed hman hdm
+  have hsh := sameShape_reachable hs.reachable hd.reachable hes hed
+  ⟨load_active_into_inactive src dst hso hsh hdo, resave_identical src dst hso hsh (.inr hdo)⟩
+
+/-- **Round trip, not activated → activated** (manual): the image is the single bit `0`, the destination is
+exited and saves the same image. -/
+theorem load_roundtrip_from_inactive_reachable (hs : QuietOf shape cs src) (hd : ReachableOf shape cd dst)
+    (hes : src.w.err = none) (hsm : src.root.machineActive = false) (hdm : dst.root.machineActive = true)
+    (hsman : cs.manual = true) (hdman : cd.manual = true) :
+    src.save = [false] ∧ (dst.load src.save).root = dst.root.cleared ∧ (dst.load src.save).save = src.save :=
+  have hso := inactiveOK_reachable hs hes hsman hsm
+  have hdm' : dst.w.cfg.manual = true := by rw [hd.cfg_manual]; exact hdman
+  ⟨(load_inactive_into_active src dst hso hdm' hdm).1, (load_inactive_into_active src dst hso hdm' hdm).2,
+   resave_identical_inactive src dst hso hdm' hdm⟩
+
+/-- **Round trip, not activated → not activated** (manual): nothing happens. -/
+theorem load_roundtrip_both_inactive_reachable (hs : QuietOf shape cs src) (hd : QuietOf shape cd dst)
+    (hes : src.w.err = none) (hed : dst.w.err = none)
+    (hsm : src.root.machineActive = false) (hdm : dst.root.machineActive = false)
+    (hsman : cs.manual = true) (hdman : cd.manual = true) : dst.load src.save = dst :=
+  load_inactive_into_inactive src dst (inactiveOK_reachable hs hes hsman hsm) (inactiveOK_reachable hd hed hdman hdm)
+
+/-- the callbacks of the activated → activated load: every visible state that stopped being active is exited,
+every one that became active is entered, nothing but `exit / enter / reenter` is delivered -/
+theorem load_delivers_exits_and_enters_reachable (hs : QuietOf shape cs src) (hd : ReachableOf shape cd dst)
+    (hes : src.w.err = none) (hed : dst.w.err = none)
+    (hsm : src.root.machineActive = true) (hdm : dst.root.machineActive = true)
+    (hw : (shape.toNode 0 0).WidthOK) :
+    ∃ new : List LifeCall, (dst.load src.save).w.lifeLog = new.reverse ++ dst.w.lifeLog ∧
+      (∀ x ∈ dst.root.activeVis dst.w.cfg.vis, x ∉ src.root.activeIds → (x, Method.exit) ∈ new) ∧
+      (∀ x ∈ src.root.activeVis dst.w.cfg.vis, x ∉ dst.root.activeIds → (x, Method.enter) ∈ new) ∧
+      (∀ c ∈ new, c.2 = .exit ∨ c.2 = .enter ∨ c.2 = .reenter) :=
+  load_delivers_exits_and_enters src dst (activeOK_reachable hs hes hsm hw)
+    (sameShape_reachable hs.reachable hd hes hed) (hd.act hed hdm) hdm
+
+/-- the state ids of every reachable instance are pairwise distinct (hypothesis `hnd` of `load_exits_exactly` /
+`load_enters_exactly`) -/
+theorem ids_distinct_reachable (h : ReachableOf shape cfg m) (he : m.w.err = none) : m.root.allIds.Nodup :=
+  ids_distinct shape cfg m (h.sameShape' he)
+
+/-- the image of every reachable instance fits the buffer the structure prescribes — no hypothesis but
+reachability and `err = none` -/
+theorem save_fits_buffer_reachable (h : ReachableOf shape cfg m) (he : m.w.err = none) :
+    m.save.length ≤ shape.info.serialBits :=
+  save_fits_buffer shape cfg m (h.sameShape' he)
+
+/-- a concrete non-trivial reachable instance exists; it satisfies the source hypotheses (`WidthOK` of its
+declaration included) -/
+example : Reachable (Api.run Demo.mach Demo.prog) := Demo.reachable.reachable
+example : ∃ m : Mach Demo.DU, QuietOf Demo.shape Demo.cfg m ∧ m.w.err = none ∧ m.root.machineActive = true ∧
+    (Demo.shape.toNode 0 0).WidthOK :=
+  ⟨_, Demo.quiet, Demo.err_none, Demo.active,
+    by simp [Demo.shape, Shape.toNode, Shapes.toSubs, Node.WidthOK, Subs.WidthOKAll, Subs.len]⟩
 
 end Hfsm.Props.C08
